@@ -2,6 +2,7 @@
    ExtrOcamlBasic only: bool, option, unit, list, prod, sumbool -> OCaml natives; N/positive/nat stay Coq datatypes. *)
 From Coq Require Import Extraction ExtrOcamlBasic.
 From Coq Require Import List NArith.
+From Base Require Import Bytes.
 From Fw Require Import Model Spec World.
 Extraction Language OCaml.
 Extraction "fw_model.ml"
